@@ -305,31 +305,35 @@ func ruleC04_7(c *Ctx, r *Rep) {
 			r.Undecided("C04.7", "C04.7:jitter<1s", ret.Pos(), "the fuzzed delay is not `nominal + jitter` in a form the rule recognises")
 		}
 	}
-	// the clamp
+	// the clamp (in the function, or in a private helper that computes the nominal delay)
 	clamp := false
-	for _, b := range fn.Blocks {
-		for _, in := range b.Instrs {
-			bo, ok := in.(*ssa.BinOp)
-			if !ok {
-				continue
-			}
-			switch bo.Op {
-			case token.GTR, token.GEQ, token.LSS, token.LEQ:
-			default:
-				continue
-			}
-			sx, sy := sources(bo.X), sources(bo.Y)
-			if sx["param:attempts"] && sy["field:MaxBackoff"] && !sy["param:attempts"] || sy["param:attempts"] && sx["field:MaxBackoff"] && !sx["param:attempts"] {
-				clamp = true
+	for _, g := range c.opFuncs(fn) {
+		for _, b := range g.Blocks {
+			for _, in := range b.Instrs {
+				bo, ok := in.(*ssa.BinOp)
+				if !ok {
+					continue
+				}
+				switch bo.Op {
+				case token.GTR, token.GEQ, token.LSS, token.LEQ:
+				default:
+					continue
+				}
+				sx, sy := sources(bo.X), sources(bo.Y)
+				if sx["param:attempts"] && sy["field:MaxBackoff"] && !sy["param:attempts"] || sy["param:attempts"] && sx["field:MaxBackoff"] && !sx["param:attempts"] {
+					clamp = true
+				}
 			}
 		}
 	}
 	// or a call to min(...)
-	for _, ci := range callsIn(fn, false, func(cal *ssa.Function, _ ssa.CallInstruction) bool {
-		return cal.Name() == "Min" && fnPkgPath(cal) == "math"
-	}) {
-		_ = ci
-		clamp = true
+	for _, g := range c.opFuncs(fn) {
+		for _, ci := range callsIn(g, false, func(cal *ssa.Function, _ ssa.CallInstruction) bool {
+			return cal.Name() == "Min" && fnPkgPath(cal) == "math"
+		}) {
+			_ = ci
+			clamp = true
+		}
 	}
 	for _, b := range fn.Blocks {
 		for _, in := range b.Instrs {
